@@ -42,7 +42,7 @@ func HarnessRangeServe() {
 	case 3:
 		rh["If-Range"] = []string{vTimeString(symTime())}
 	}
-	viaTunnel := symChoice(2) == 1
+	viaTunnel := symChoice(vParam("transports", 2)) == 1
 	req := newReq("GET", "o.test", "/big", "", rh)
 	var c capture
 	if viaTunnel {
